@@ -423,7 +423,8 @@ func (acl *ACL) AuthorizeConnection(conn *net.Conn, cmd []string, command intern
 		return nil
 	}
 
-	if len(append(readKeys, writeKeys...)) > 0 {
+	// Note: appending to readKeys here would write into the decoded command when the slice has spare capacity.
+	if len(readKeys)+len(writeKeys) > 0 {
 		// 7. Check if nokeys is true
 		if connection.User.NoKeys {
 			return errors.New("not authorised to access any keys")
